@@ -21,6 +21,11 @@ def glob_of(rnd, w):
     if r < 0.88 and len(w) > 3:
         i = rnd.randrange(1, len(w) - 1)
         return w[:i] + '*' + w[i + 1:]
+    if r < 0.93 and len(w) > 3:
+        # prefix and suffix that OVERLAP in the word: `wl_s*surface` must not match `wl_surface`
+        i = rnd.randrange(1, len(w) - 1)
+        j = rnd.randrange(i + 1, len(w))
+        return w[:j] + '*' + w[i:]
     return '*'
 
 
